@@ -158,32 +158,35 @@ def propMembers (props : List (Str × List Json)) : List (Str × Json) :=
 variable {β : Type} [DecidableEq β]
 
 mutual
+/-- one iteration of the statement loop of buildResource: member name, value, used prefixes -/
+def buildStmt (E : Enc) (label : β → Str) : Stmt β → List Str → Str × Json × List Str
+  | .obj p (.iri v), used =>
+    if p = rdfType then
+      let t := compactVocabIRI E v
+      (kType, .str t.1, used ++ t.2)
+    else
+      let t := compactDocumentIRI E v
+      let k := compactVocabIRI E p
+      (k.1, .obj [(kId, .str t.1)], used ++ t.2 ++ k.2)
+  | .obj p (.bnode b), used =>
+    let k := compactVocabIRI E p
+    (k.1, .obj [(kId, .str ([cUnderscore, cColon] ++ label b))], used ++ k.2)
+  | .obj p (.lit lex dt lang), used =>
+    let v := literalValue E lex dt lang
+    let k := compactVocabIRI E p
+    (k.1, v.1, used ++ v.2 ++ k.2)
+  | .anon p l, used =>
+    -- buildResource(builder, statementT.AnonResource, false): an AnonResource has no subject
+    let inner := buildStmts E label l [] used
+    let k := compactVocabIRI E p
+    (k.1, .obj (propMembers inner.1), inner.2 ++ k.2)
 /-- the statement loop of buildResource: properties so far, used prefixes so far -/
 def buildStmts (E : Enc) (label : β → Str) : List (Stmt β) → List (Str × List Json) → List Str →
     List (Str × List Json) × List Str
   | [], props, used => (props, used)
-  | .obj p o :: rest, props, used =>
-    match o with
-    | .iri v =>
-      if p = rdfType then
-        let t := compactVocabIRI E v
-        buildStmts E label rest (addProp props kType (.str t.1)) (used ++ t.2)
-      else
-        let t := compactDocumentIRI E v
-        let k := compactVocabIRI E p
-        buildStmts E label rest (addProp props k.1 (.obj [(kId, .str t.1)])) (used ++ t.2 ++ k.2)
-    | .bnode b =>
-      let k := compactVocabIRI E p
-      buildStmts E label rest (addProp props k.1 (.obj [(kId, .str ([cUnderscore, cColon] ++ label b))])) (used ++ k.2)
-    | .lit lex dt lang =>
-      let v := literalValue E lex dt lang
-      let k := compactVocabIRI E p
-      buildStmts E label rest (addProp props k.1 v.1) (used ++ v.2 ++ k.2)
-  | .anon p l :: rest, props, used =>
-    -- buildResource(builder, statementT.AnonResource, false): an AnonResource has no subject
-    let inner := buildStmts E label l [] used
-    let k := compactVocabIRI E p
-    buildStmts E label rest (addProp props k.1 (.obj (propMembers inner.1))) (inner.2 ++ k.2)
+  | st :: rest, props, used =>
+    let r := buildStmt E label st used
+    buildStmts E label rest (addProp props r.1 r.2.1) r.2.2
 end
 
 /-- `buildResource(builder, resource, true)` for an exported (root) resource -/
